@@ -286,8 +286,9 @@ class Result:
         for kid, text in self.known_hits:
             print("KNOWN-FINDING: property=%s %s %s" % (self.pid, kid, text))
         if self.violations:
-            # one line per distinct violation; first is the headline
-            for path, text, found in self.violations[:5]:
+            # one line per distinct violation; violations with a concrete failing input come first (the headline)
+            ordered = [v for v in self.violations if v[2]] + [v for v in self.violations if not v[2]]
+            for path, text, found in ordered[:5]:
                 print("# %s" % text)
                 print("VIOLATION property=%s replay=%s%s" % (self.pid, path, "" if found else " no-failing-input-found"))
             return 1
